@@ -13,7 +13,7 @@ RULE = ("each case is a seeded batch of inputs for one monitor kind (orthant / b
 ASSUMPTIONS = ["float64; projection identities checked with relative tolerance 1e-12*(|x|+radius)",
                "Jacobian compared only at relative distance >= 1e-3 from the active-set boundary",
                "M random SPD with cond <= 1e8, W full column rank (smallest singular value >= 1e-3 * largest)"]
-REQUIRED_MONITORS = ["orthant.projection", "ball.projection", "ball.degenerate", "ball.jacobian", "residual", "prox_parameter", "purity", "representation"]
+REQUIRED_MONITORS = ["orthant.projection", "ball.projection", "ball.degenerate", "ball.jacobian", "residual", "prox_parameter", "purity", "representation", "retention"]
 
 KINDS = ["orthant", "ball", "ball_jac", "residual", "proxpar", "purity"]
 
@@ -78,7 +78,19 @@ def run_case(spec, ctx):
             thunks.append(("NegativeOrthant.prox", {"x": x}, (lambda a=x: NegativeOrthant.prox(a.copy()))))
             thunks.append(("Sphere.prox", {"x": x, "z": z, "r": ball.r}, (lambda a=x, c=z: ball.prox(a.copy(), c))))
             thunks.append(("Sphere.prox", {"x": x, "z": z, "r": ball.r, "instance": "fresh"}, (lambda a=x, c=z: Sphere(ball.r).prox(a.copy(), c))))
+        # residual and Jacobian of the shared instance at unrelated points, in seeded random order (Newton evaluates the residual at
+        # one iterate and the Jacobian at another)
+        for b in range(spec["batch"]):
+            n3 = int(rng.integers(1, 4))
+            x3, y3, z3, rho3 = _vec(rng, n3), rng.normal(size=n3) * loguniform(rng, 1e-3, 1e3), np.array([_z(rng)]), float(loguniform(rng, 1e-2, 1e2))
+            for act in (True, False):
+                thunks.append(("Sphere.residual", {"x": x3, "y": y3, "z": z3, "rho": rho3, "active_set": act},
+                               (lambda a=x3, b_=y3, c=z3, r_=rho3, act=act: ball.residual(a.copy(), b_.copy(), c.copy(), r_, act))))
+                thunks.append(("Sphere.Jacobian", {"x": x3, "y": y3, "z": z3, "rho": rho3, "active_set": act},
+                               (lambda a=x3, b_=y3, c=z3, r_=rho3, act=act: ball.Jacobian(a.copy(), b_.copy(), c.copy(), r_, act))))
         purity_check(ctx, rng, thunks, mon="purity", scribble=True)
+        from vlib.oracles import retention_check
+        retention_check(ctx, thunks, mon="retention")
         from vlib.oracles import representation_check
         calls = []
         for name, d, _ in thunks[:60]:
